@@ -86,6 +86,34 @@ def observer_completeness(ctx, lc, cls, rule="R12.a"):
         if w.attr not in strong:
             missing.setdefault(w.attr, []).append(w)
     ok = True
+    # per-key precision for the feature tables: zeroing with `exclude=K`
+    # does not re-establish key K
+    zero_calls = []
+    for f, via in lc.self_closure(rst, cls):
+        for n in own_nodes(f.node):
+            if isinstance(n, ast.Call) and isinstance(n.func, ast.Attribute) and n.func.attr == "set_features_to_zero":
+                ex = [k.value for k in n.keywords if k.arg == "exclude"] + list(n.args[:1])
+                names = set()
+                for e in ex:
+                    for x in ast.walk(e):
+                        if isinstance(x, ast.Attribute) and isinstance(x.value, ast.Name) and x.value.id == "FeatureType":
+                            names.add(f"FeatureType.{x.attr}")
+                zero_calls.append(names)
+    if zero_calls and all(zero_calls):
+        never_zeroed = set.intersection(*zero_calls)
+        other_strong = {w.key for w in wr if w.attr == "features" and w.kind in ("rebind", "entry") and w.key}
+        full_rebind = any(w.attr == "features" and w.kind == "rebind" for w in wr)
+        for k in sorted(never_zeroed - other_strong):
+            hit = [w for w in wu if w.attr == "features" and w.key == k]
+            if hit and not full_rebind:
+                ok = False
+                chk.violation(
+                    rule, f"{cls.qualname}.reset", hit[0].event.node,
+                    f"{cls.name}.update writes `self.features[{k}]` ({hit[0].text}) but every zeroing on the reset path "
+                    f"excludes {k} and nothing else rebinds it: after a reset the {k.split('.')[-1].lower()} features still "
+                    "carry the previous episode",
+                    loc=hit[0].loc,
+                )
     for attr, ws in sorted(missing.items()):
         if attr in entry and all(x.kind in ("entry", "inplace") for x in ws):
             # DurationObserver idiom: zero + per-key rebinding
